@@ -9,3 +9,6 @@ def run(chk):
     with Scratch() as sc:
         ecmc_design.design_for(chk, sc, "C08")
         runlevel.run_for(chk, "C08", sc)
+    # a dumped and resumed run must keep the property: trashed candidates may not come back to life
+    from checks import c19
+    c19.dump_resume(chk, [c19.PLAN_8_ATOMS] if chk.tier == "quick" else [c19.PLANS["thorough"][0], c19.PLANS["thorough"][-2], c19.PLANS["thorough"][2]], {"C08"})
